@@ -1,11 +1,15 @@
 ---------------------------- MODULE Scen_Bounded ----------------------------
 (* Scenario generator of property C20: behaviours of Bounded (the environment's choices: duty        *)
 (* patterns incl. epochs without duties, head events, their absence for whole epochs, reorgs that    *)
-(* refresh - and so may withdraw - scheduled duties, node outages, aggregation or not) with a       *)
+(* refresh - and so may withdraw - scheduled duties, also while an attestation job is running and   *)
+(* with the node's answer arriving late, node outages, aggregation or not) with a                   *)
 (* history variable.  A behaviour is printed when the clock has reached MaxSlot and the last slot's *)
 (* jobs have run.  TLC runs it in simulation mode (seeded); the Go drivers replay the steps on the  *)
 (* real services.                                                                                   *)
 EXTENDS Bounded, Json
+
+CONSTANT Focus     \* TRUE: the generator only keeps behaviours in which the attester duties of the current
+                   \* epoch are refreshed WHILE an attestation job of that epoch is running (the in-flight batch)
 
 VARIABLES hist, fin
 svars == <<vars, hist, fin>>
@@ -15,7 +19,7 @@ H(e) == hist' = Append(hist, e) /\ UNCHANGED fin
 SInit ==
     /\ Init
     /\ fin = FALSE
-    /\ hist = <<[ev |-> "Reset", p |-> P, ep |-> EP, verify |-> verify, agg |-> aggmode, now |-> now, fam |-> env.fam]>>
+    /\ hist = <<[ev |-> "Reset", p |-> P, ep |-> EP, g |-> G, verify |-> verify, agg |-> aggmode, now |-> now, fam |-> env.fam]>>
 
 E0 == Epoch(now)
 
@@ -24,18 +28,22 @@ SNext ==
     /\ \/ \E d0, d1 \in AllDuties : NStart(d0, d1) /\ H([ev |-> "Start", d0 |-> d0, d1 |-> d1])
        \/ NTick /\ H([ev |-> "Tick"])
        \/ \E d \in AllDuties : NPrepare(d) /\ H([ev |-> "Prepare", e |-> E0 + 1, d |-> d])
-       \/ \E F \in SUBSET {E0, E0 + 1} : \E d0, d1 \in AllDuties :
-            /\ NHead(F, d0, d1)
-            /\ H([ev |-> "Head",
+       \/ \E F \in SUBSET {E0, E0 + 1} : \E d0, d1 \in AllDuties : \E split \in BOOLEAN :
+            /\ NHead(F, d0, d1, split)
+            /\ (Focus /\ E0 \in F) => (\E s \in running : Epoch(s) = E0)
+            /\ Focus => now \notin attjobs          \* the slot's head event comes after its job has started
+            /\ H([ev |-> "Head", split |-> split,
                   r |-> (IF E0 \in F THEN <<E0>> ELSE <<>>) \o (IF (E0 + 1) \in F THEN <<E0 + 1>> ELSE <<>>),
                   dm |-> (IF E0 \in F THEN <<d0>> ELSE <<>>) \o (IF (E0 + 1) \in F THEN <<d1>> ELSE <<>>)])
-       \/ \E ok \in BOOLEAN : NAttStart(ok) /\ H([ev |-> "Att", s |-> now, ok |-> ok])
-       \/ NAttEnd /\ UNCHANGED <<hist, fin>>
+       \/ \E r \in env.refr : NResched(r) /\ H([ev |-> "Resched", e |-> r.e])
+       \/ \E ok \in BOOLEAN : NAttStart(ok) /\ H([ev |-> "AttStart", s |-> now, ok |-> ok])
+       \/ \E s \in running : NAttEnd(s) /\ H([ev |-> "AttEnd", s |-> s])
+       \/ NProbe /\ hist[Len(hist)].ev # "Probe" /\ H([ev |-> "Probe"])
        \/ \E ok \in BOOLEAN : NSyncMsg(ok) /\ H([ev |-> "SyncMsg", s |-> now, ok |-> ok])
        \/ NSyncAgg /\ H([ev |-> "SyncAgg", s |-> now])
        \/ NAdvance /\ H([ev |-> "Advance"])
        \/ NAuction /\ H([ev |-> "Auction", s |-> now])
-       \/ /\ now = MaxSlot /\ (env.fam # "bids" => up /\ SlotDone)
+       \/ /\ now = MaxSlot /\ (env.fam # "bids" => up /\ SlotDone /\ running = {})
           /\ fin' = TRUE
           /\ UNCHANGED <<vars, hist>>
 
